@@ -252,6 +252,7 @@ def run(ctx):
     # -- per simple-type class ---------------------------------------------------------------------
     ctx.rule("R11.2", "image of the accepted set under convert_to_xml is inside the schema simple type's value space")
     ctx.rule("R11.4", "each lexical alternative of the paired schema type is readable by convert_from_xml / from_xml")
+    ctx.rule("R11.5", "the written image covers the integer value space of the schema type (no schema-valid value is refused)")
     nclasses = 0
     for cls in sorted(bycls, key=lambda c: c.name):
         stypes = sorted(bycls[cls])
@@ -280,6 +281,12 @@ def run(ctx):
             if not probs:
                 ctx.ok("R11.2", key, sample={"class": cls.name, "accepted": acc.describe(), "written": img.describe(),
                                              "schema": S.tname(sq), "used_by": len(bycls[cls][sq])})
+            # accepted set covers the schema value space (title: *exactly* those the schema can represent)
+            cov = _coverage_gap(S, acc, img, sq)
+            if cov:
+                ctx.violation("R11.5", key + ":narrower", cov, file=cls.file, line=cls.line)
+            elif img.kind == "int" and acc.kind in ("int", "num"):
+                ctx.ok("R11.5", key, nontrivial=True)
             # readable alternatives
             lex = schema_lexemes(S, sq)
             enums = S.st_enums(sq)
@@ -306,7 +313,11 @@ def run(ctx):
 
 def _enum_reader(ctx, prog, S, cls, stypes, uses):
     members = prog.enum_members(cls)
-    toks = {m.xml for m in members if m.xml}
+    # members sharing an integer value are aliases of the first: only the first one's token is ever matched
+    first = {}
+    for m in members:
+        first.setdefault(m.value, m)
+    toks = {m.xml for m in first.values() if m.xml}
     for sq in stypes:
         enums = S.st_enums(sq)
         key = "%s~%s" % (cls.name, S.tname(sq))
@@ -383,3 +394,23 @@ def _image_in_space(S, cls, acc, img, sq):
             return [("hex", "hexBinary(3) needs a 6-digit hex check")]
         return out
     return [("kind", "image kind %s not comparable" % img.kind)]
+
+
+def _coverage_gap(S, acc, img, sq):
+    """Description of schema-valid integers the setter refuses, for integer images with a single bounded
+    schema interval; None when covered or not applicable."""
+    if img.kind != "int" or img.ival is None or acc.kind != "int":
+        return None  # only identity-written integers: a scaled / normalised image refuses nothing by being narrower
+    space = int_space(S, sq)
+    if not space or len([x for x in space if x != (None, None)]) != 1:
+        return None
+    lo, hi = [x for x in space if x != (None, None)][0]
+    iv = img.ival
+    gaps = []
+    if lo is not None and iv.lo is not None and iv.lo > lo:
+        gaps.append("[%s, %s) " % (lo, iv.lo))
+    if hi is not None and iv.hi is not None and iv.hi < hi:
+        gaps.append("(%s, %s]" % (iv.hi, hi))
+    if gaps:
+        return "schema-valid values %s of %s are refused (written range %r)" % (" and ".join(gaps), S.tname(sq), iv)
+    return None
